@@ -181,8 +181,9 @@ def obligations(tier: str):
         add(f"{rep}_f2", fixture="f2", rep=rep, decider="grow", max_depth=2 if rep != "dsge" or not T else 3, gene_length=gl)
         add(f"{rep}_f3", fixture="f3", rep=rep, decider="grow", max_depth=md, gene_length=gl)
         add(f"{rep}_f3c_bool", fixture="f3c", grammar_fn="grammar_bool", rep=rep, decider="grow", max_depth=2 if rep != "dsge" else 3, gene_length=gl)
-        if T:
+        if T or rep == "dsge":  # bare list, no refinement anywhere (dSGE: list lengths are read under the key `int`)
             add(f"{rep}_f3c_list", fixture="f3c", rep=rep, decider="grow", max_depth=3, gene_length=gl, fuel=60)
+        if T:
             add(f"{rep}_f3b", fixture="f3b", rep=rep, decider="grow", max_depth=2 if rep != "dsge" else 3, gene_length=gl)
         if rep != "dsge" and T:
             add(f"{rep}_f3f_float", fixture="f3f", rep=rep, decider="grow", max_depth=1, gene_length=2 if rep == "ge" else 1, concrete_genes=True)
@@ -193,6 +194,7 @@ def obligations(tier: str):
         add(f"{rep}_individual_f1", h="individual", fixture="f1", rep=rep, decider="grow", max_depth=2 if rep != "dsge" else 3, gene_length=gl)
     add("stack_fresh_vs_used_f0", h="fresh_vs_used", fixture="f0", rep="stack", gene_length=3, failures_limit=1, gene_fuel=6, timeout=250)
     add("ge_fresh_vs_used_f1", h="fresh_vs_used", fixture="f1", rep="ge", decider="pi", max_depth=3, gene_length=4)
+    add("dsge_fresh_vs_used_f3c", h="fresh_vs_used", fixture="f3c", rep="dsge", max_depth=3, fuel=60)
     add("sge_fresh_vs_used_f0", h="fresh_vs_used", fixture="f0", rep="sge", decider="grow", max_depth=2, gene_length=1)
     add("stack_f1", fixture="f1", rep="stack", gene_length=3 if not T else 4, failures_limit=1, gene_fuel=8 if not T else 12, timeout=150)
     add("stack_f1p_postponed_annotations", fixture="f1p", rep="stack", gene_length=3 if not T else 4, failures_limit=1, gene_fuel=8 if not T else 12, timeout=150)
